@@ -227,6 +227,9 @@ func materialize(a absVal, env *runEnv) interface{} {
 		}
 		return &listIter{xs: xs}
 	case "opq":
+		if a.Kind == "defined_str" {
+			return vRole(decodeChars(a.S)) // a defined string type holding the payload
+		}
 		v, ok := opaqueKinds[a.Kind]
 		if !ok {
 			panic("harness: no Go value for opaque kind " + a.Kind)
@@ -266,6 +269,9 @@ func (r vRec) Fail() (vRec, error) {
 	}
 	return vRec{Name: "n"}, errSentinel
 }
+
+// vRole: a defined type over string (no methods)
+type vRole string
 
 var opaqueKinds = map[string]func() interface{}{
 	"nilptr_struct":    func() interface{} { return (*vStruct)(nil) },
